@@ -123,7 +123,14 @@ func codecParametersFuzzySearch(
 			c.RTPCodecCapability.Channels,
 			c.RTPCodecCapability.SDPFmtpLine)
 
-		if needleFmtp.Match(cfmtp) {
+		// the H264, VP9 and AV1 fmtp matchers compare parameters only
+		if needleFmtp.Match(cfmtp) &&
+			fmtp.ClockRateEqual(c.RTPCodecCapability.MimeType,
+				c.RTPCodecCapability.ClockRate,
+				needle.RTPCodecCapability.ClockRate) &&
+			fmtp.ChannelsEqual(c.RTPCodecCapability.MimeType,
+				c.RTPCodecCapability.Channels,
+				needle.RTPCodecCapability.Channels) {
 			return c, codecMatchExact
 		}
 	}
